@@ -25,7 +25,10 @@ RULE = ('(a) isolated pipeline: the real LuaFormatterWriter._get_code_for_spaces
         'of all kinds, trailing comments; each program x 4 (thorough 8) random re-indentations (leading/trailing spaces and '
         'tabs on every line) x width 0-8: real `luafmt` on every layout and on its own output; every real '
         '_get_code_for_spaces call made during those runs is compared with the model (instrumented subclass); the extracted '
-        'holds_C10 is evaluated on (width, layout 1, layout k, out 1, out k, luafmt(out 1)).  One evaluation = one pipeline '
+        'holds_C10 is evaluated on (width, layout 1, layout k, out 1, out k, luafmt(out 1)); (c) 12 (thorough 120) programs go through '
+        'the command line: a cart is written, `p8tool luafmt --indentwidth w cart.p8` run in-process, the code of cart_fmt.p8 must equal '
+        'the direct formatter output and satisfy holds_C10; (d) a sample of 150 (600) pipeline calls is re-evaluated inside Coq by '
+        'vm_compute on the model itself (cross-check of extraction and glue).  One evaluation = one pipeline '
         'call compared, or one holds_C10 evaluation; distinct+non-trivial = distinct runs that contain a line break or a '
         'comment + distinct (program, layout pair) observations inside the domain of holds_C10')
 PARTIAL = ('whole-writer theorems (C10_indent, C10_reindent_invariant, C10_idempotent at program level) need the '
@@ -265,6 +268,10 @@ def generate(tier, rng):
     nprog, nlay = (300, 4) if tier == 'quick' else (3000, 8)
     for i in range(nprog):
         yield prog_case(rng, tier, extended=(i % 4 == 3), nlay=nlay)
+    # the command line path: `p8tool luafmt --indentwidth w cart.p8` (argument parsing, cart read, .p8 write)
+    for i in range(12 if tier == 'quick' else 120):
+        c = prog_case(rng, tier, extended=(i % 3 == 2), nlay=1)
+        yield {'kind': 'cli', 'w': c['w'], 'srcs': c['srcs'], 'features': c['features'] + ['cli']}
 
 
 def corpus_cases():
@@ -380,7 +387,62 @@ def luafmt(src, w, record=None):
         return 'ERR', lib.exc_name(e)
 
 
+def run_cli(case):
+    """-> observation shaped like a 'prog' one: layout = the code as p8tool reads it from the cart, out 1 = code of
+    the cart written by `p8tool luafmt --indentwidth w`, out 2 = Lua.to_lines(LuaFormatterWriter) on the same code"""
+    from pico8 import tool
+    from pico8.game import file as gfile
+    from pico8.game import game as ggame
+    from pico8.lua import lua
+    w = case['w']
+    src = bytes.fromhex(case['srcs'][0])
+    d = os.path.join(lib.VERIF, 'work', 'c10_cli')
+    os.makedirs(d, exist_ok=True)
+    path = os.path.join(d, 'cart_%d.p8' % os.getpid())
+    outp = path[:-3] + '_fmt.p8'
+    for f in (path, outp):
+        if os.path.exists(f):
+            os.remove(f)
+    obs = {'outs': [('ERR', 'setup')], 'again': None, 'calls': set(), 'seen': None}
+    try:
+        g = ggame.Game.make_empty_game(filename=path)
+        g.lua = lua.Lua.from_lines([src], version=g.lua.version)
+        gfile.to_file(g, filename=path)
+        seen = b''.join(gfile.from_file(path).lua.to_lines())
+    except Exception as e:  # noqa  (cart not writable / readable: not C10's business)
+        obs['outs'] = [('ERR', 'cart-setup-' + lib.exc_name(e))]
+        return obs
+    obs['seen'] = seen
+    direct = luafmt(seen, w)
+    if direct[0] != 'OK':
+        obs['outs'] = [direct]
+        return obs
+    try:
+        rc = tool.main(['-q', 'luafmt', '--indentwidth', str(w), path])
+        if rc != 0 or not os.path.exists(outp):
+            cli = ('ERR', 'p8tool-exit-%s' % rc)
+        else:
+            cli = ('OK', b''.join(gfile.from_file(outp).lua.to_lines()))
+    except SystemExit as e:
+        cli = ('ERR', 'SystemExit-%s' % e.code)
+    except Exception as e:  # noqa
+        cli = ('ERR', lib.exc_name(e))
+    finally:
+        for f in (path, outp):
+            if os.path.exists(f):
+                os.remove(f)
+    obs['outs'] = [cli, direct]
+    if cli[0] == 'OK':
+        obs['again'] = luafmt(cli[1], w)
+    else:
+        obs['outs'] = [direct, cli]     # the direct call worked, the command line did not: reported as a difference
+        obs['again'] = luafmt(direct[1], w)
+    return obs
+
+
 def run_impl(case):
+    if case['kind'] == 'cli':
+        return run_cli(case)
     if case['kind'] in ('runs', 'runs-random'):
         rows = []
         for run in _runs_of(case):
@@ -428,10 +490,12 @@ def compare(case, obs, answers):
 
 def monitor_requests(case, obs):
     """'code' requests; answers are verdict numbers (see Instances/HoldsC10.v)"""
-    if case['kind'] != 'prog' or obs['outs'][0][0] != 'OK':
+    if case['kind'] not in ('prog', 'cli') or obs['outs'][0][0] != 'OK':
         return []
     w = case['w']
     srcs = case['srcs']
+    if case['kind'] == 'cli':
+        srcs = [obs['seen'].hex()] * len(obs['outs'])
     o1 = _enc(obs['outs'][0])
     again = _enc(obs['again'])
     reqs = []
@@ -467,7 +531,7 @@ def describe(case, obs):
         return {'kind': 'runs', 'len': case['len'], 'prefix': case['prefix'], 'n': len(obs['rows'])}
     if case['kind'] == 'runs-random':
         return {'kind': 'runs-random', 'n': len(obs['rows']), 'first': case['runs'][:2]}
-    d = {'kind': 'prog', 'w': case['w'], 'features': case.get('features'),
+    d = {'kind': case['kind'], 'w': case['w'], 'features': case.get('features'),
          'src0': bytes.fromhex(case['srcs'][0]).decode('latin-1')[:400],
          'out0': (obs['outs'][0][1].decode('latin-1')[:400] if obs['outs'][0][0] == 'OK' else 'ERR ' + obs['outs'][0][1])}
     return d
@@ -593,7 +657,7 @@ def run_cases(cases, ctx):
             reqs.extend(r)
         ans = lib.run_driver_parallel(ctx['monitor_exe'], reqs)
         for c, o, (a, b) in zip(cases, obs, spans):
-            if c['kind'] != 'prog':
+            if c['kind'] not in ('prog', 'cli'):
                 continue
             if o['outs'][0][0] != 'OK':
                 bump('prog:outside (luafmt raised %s: C09)' % o['outs'][0][1])
@@ -617,7 +681,7 @@ def run_cases(cases, ctx):
                     bump('observation:no-claim(%d)' % code)
                     continue
                 bump('observation:in-domain')
-                nontrivial.add((c['srcs'][0], c['srcs'][k]))
+                nontrivial.add((c['kind'], c['srcs'][0], c['srcs'][min(k, len(c['srcs']) - 1)]))
                 if code > 0 and worst is None:
                     worst = (code, k)
             if worst is not None:
@@ -633,6 +697,8 @@ def run_cases(cases, ctx):
             if v['signature'] not in best or sz < best[v['signature']][0]:
                 best[v['signature']] = (sz, v)
         for sig, (_, v) in sorted(best.items())[:4]:
+            if v['case']['kind'] != 'prog':
+                continue
             try:
                 mc = minimize_prog(ctx, v['case'], v['_k'], sig, budget_s=12)
                 v['case'] = mc
